@@ -144,14 +144,15 @@ def lookupColumn (env : Env) (q name : String) : R Value :=
 /-! ## IN semantics (documentation 9.24.1): true if any equal; else NULL if any
     comparison was NULL; else false -/
 
-def inValues (x : Value) (ys : List Value) : R (Option Bool) := do
-  let mut sawNull := false
-  for y in ys do
+def inValuesAux (x : Value) : List Value → Bool → R (Option Bool)
+  | [], sawNull => pure (if sawNull then none else some false)
+  | y :: ys, sawNull => do
     match ← compareValues x y with
-    | some .eq => return some true
-    | some _ => pure ()
-    | none => sawNull := true
-  return (if sawNull then none else some false)
+    | some .eq => pure (some true)
+    | some _ => inValuesAux x ys sawNull
+    | none => inValuesAux x ys true
+
+def inValues (x : Value) (ys : List Value) : R (Option Bool) := inValuesAux x ys false
 
 /-! ## aggregates (documentation 9.21) -/
 
